@@ -8,6 +8,7 @@ import z3
 
 from .vals import (V, VNONE, vbool, vint, vstr, fresh, to_term, from_term, sort_of, coerce,
                    parse_type, fresh_name, DATA, OBJ_LAYOUT, deep_copy)
+from . import vals
 from .state import OutOfSubset, ContractDrift, feasible
 from .engine import TRUE, FALSE, zand, zor, znot
 
@@ -25,6 +26,8 @@ def b_len(reg, eng, st, args, kwargs, node):
         return [(st, vint(len(v.x)))]
     if k in ("str", "seq"):
         return [(st, vint(z3.Length(v.x)))]
+    if k == "aseq":
+        return [(st, vint(v.x[0]))]
     if k in ("set", "dict") or (k == "bag" and v.x.get_id() in getattr(eng, "nodup", ())):
         # duplicate-free collection: len is the cardinality of the element set; what is stated: >= 0, == 0 iff empty, == 1 iff singleton, >= 2 iff two distinct elements
         arr = v.x if k != "dict" else v.x[0]
@@ -387,7 +390,14 @@ def m_append(reg, eng, st, recv, args, kwargs, node, rexpr):
             e = e.x[1]
         _store(eng, st, rexpr, V(recv.t, z3.Store(recv.x, to_term(coerce(e, recv.t[1])), TRUE)), recv)
         return [(st, VNONE)]
+    if recv.t[0] == "aseq":
+        if e.t[0] == "closure" and recv.t[1][0] == "opaque" and recv.t[1][1] in vals.LAM_CAPS:
+            e = eng.closure_to_lam(e, recv.t[1], st)
+        _store(eng, st, rexpr, V(recv.t, (recv.x[0] + 1, z3.Store(recv.x[1], recv.x[0], to_term(coerce(e, recv.t[1]))))), recv)
+        return [(st, VNONE)]
     if recv.t[0] == "seq":
+        if e.t[0] == "closure" and recv.t[1][0] == "opaque" and recv.t[1][1] in vals.LAM_CAPS:
+            e = eng.closure_to_lam(e, recv.t[1], st)   # a closure stored in a list: defunctionalised (see vals.parse_type, Lam[...])
         _store(eng, st, rexpr, V(recv.t, z3.Concat(recv.x, z3.Unit(to_term(coerce(e, recv.t[1]))))), recv)
         return [(st, VNONE)]
     raise OutOfSubset(f"append on {recv.t}")
@@ -630,6 +640,7 @@ METHODS = {
     "list": {"append": m_append, "extend": m_extend, "pop": m_pop_bag, "sort": m_sort},
     "bag": {"append": m_append, "extend": m_extend, "pop": m_pop_bag, "sort": m_sort},
     "seq": {"append": m_append, "extend": m_extend},
+    "aseq": {"append": m_append},
     "set": {"add": m_add, "update": m_update, "remove": m_remove, "discard": m_discard, "pop": m_pop_set,
             "intersection": m_intersection, "union": m_union},
     "emptyset": {"add": m_add, "update": m_update},
